@@ -253,8 +253,8 @@ class C05(Spec):
         quick = tier == 'quick'
         cs = []
         def add(name, lines): cs.append(Case(name, lines))
-        nh = (6 if quick else 60) * boost
-        nops = 220 if quick else 1500
+        nh = (8 if quick else 60) * boost
+        nops = 250 if quick else 1500
         allk = {'A': 3, 'L': 3, 'T': 3, 'R': 3, 'B': 1}
         for i in range(nh): add(f'mixed{i}', history(rng, nops, allk))
         for i in range(nh): add(f'seq{i}', history(rng, nops, {'A': 3, 'L': 3}, paymax=12))
@@ -265,7 +265,9 @@ class C05(Spec):
             add(f'dense{i}', history(rng, nops, {'T': 2, 'R': 1}, keypool=list(range(1, 13)), maxlen=12))
         sizes = [7, 30, 120] if quick else [7, 30, 120, 700, 2500, 6000]
         for n in sizes:
-            for k in 'ALTR': add(f'grow{k}{n}', growth(rng, n * min(boost, 2), k))
+            for k in 'ALTR':
+                if n > 2500 and k in 'TR': continue      # the per-op reference comparison of a map is O(n log n)
+                add(f'grow{k}{n}', growth(rng, n * min(boost, 2), k))
         return cs
 
     @staticmethod
